@@ -1739,3 +1739,49 @@ def n_diff_term(st, a, b):
     t = _NDIFF[key](a.arr, b.arr, *[to_z3(d) for d in a.dims])
     st.assume(t >= 0)
     return t
+
+
+def np_cumsum(interp, st, args, kwargs, node):
+    """np.cumsum of a 1-d integer array: out[k] = a[0] + ... + a[k] (stated with the prefix-sum function psum; trusted library contract)"""
+    a = args[0]
+    if isinstance(a, Arr):
+        a = _M().arr_to_grid(a)
+    if kwargs or len(args) != 1 or not isinstance(a, Grid) or a.rank != 1 or a.kind != "int":
+        raise Outside("np.cumsum other than of a 1-d integer array", node)
+    _trust("np.cumsum(a)[k] == a[0] + ... + a[k]")
+    for ax in psum_axioms(a.arr):
+        st.assume(ax)
+    f = sumfn()
+    return _M().grid_lambda([a.dims[0]], "int", lambda idx: f(a.arr, idx[0] + 1))
+
+
+def np_split(interp, st, args, kwargs, node):
+    """np.split(a, cuts, axis=0) with a 1-d array of cut positions: len(cuts)+1 pieces, piece k = a[cuts[k-1]:cuts[k]]
+    (with cuts[-1] := 0 and cuts[len] := len(a)); requires 0 <= cuts nondecreasing <= len(a) (obligation). Trusted library contract."""
+    M = _M()
+    a, cuts = args[0], args[1]
+    axis = kwargs.get("axis", args[2] if len(args) > 2 else 0)
+    if axis != 0 or not isinstance(a, Grid) or not isinstance(cuts, Grid) or cuts.rank != 1:
+        raise Outside("np.split other than (array, 1-d cut positions, axis=0)", node)
+    _trust("np.split(a, cuts, axis=0): piece k is a[cuts[k-1]:cuts[k]] (first from 0, last to the end)")
+    m = to_z3(cuts.dims[0])
+    n = to_z3(a.dims[0])
+    k = z3.Int(V.fresh_name("sk"))
+    cut = lambda i: z3.Select(cuts.arr, i)  # noqa: E731
+    interp.ctx.oblige(st, z3.ForAll([k], z3.Implies(z3.And(k >= 0, k < m), z3.And(cut(k) >= 0, cut(k) <= n, z3.Implies(k > 0, cut(k - 1) <= cut(k))))),
+                      f"split-cuts-ordered@{getattr(node, 'lineno', '?')}", node, "assert")
+    lo = z3.If(k == 0, z3.IntVal(0), cut(k - 1))
+    hi = z3.If(k == m, n, cut(k))
+    t = z3.Int(V.fresh_name("st"))
+    inner_dims = list(a.dims[1:])
+    piece_arr = z3.Lambda([t], z3.Select(a.arr, lo + t))
+    tmpl = Grid([z3.Int(V.fresh_name("piece_len"))] + inner_dims, z3.Const(V.fresh_name("piece"), a.arr.sort()), a.kind, None, a.dtype)
+    # leaves of a Grid: dims..., arr
+    arrs = [z3.Lambda([k], hi - lo)]
+    for d in inner_dims:
+        arrs.append(d if isinstance(d, int) else z3.K(z3.IntSort(), to_z3(d)))
+    arrs.append(z3.Lambda([k], piece_arr))
+    return SymList(tmpl, arrs, cuts.dims[0] + 1 if not isinstance(cuts.dims[0], int) else cuts.dims[0] + 1)
+
+
+LIBFUNCS.update({"np.cumsum": np_cumsum, "np.split": np_split})
